@@ -93,4 +93,10 @@ TEXT = {
         "level_note": "Partial: see coverage.uncovered_subclaims in the evidence for the rules / operations not yet under contract.",
         "design_ref": "DESIGN.md §7 C12",
     },
+    "C14": {
+        "technique": "Verus: the two recursive basis-function bodies verified equal to the Cox-de Boor / de Boor derivative recursion spec functions (termination, index bounds, usize arithmetic, non-zero divisors included); lemmas on the spec",
+        "level_text": "Proof: bsplev_single_f64 and bspldnev_single_f64 (extracted each run) return exactly the value of the Cox-de Boor recursion (right-continuous pieces, zero-width spans dropped, right-end-point rule) resp. de Boor's derivative recursion, for every order k >= 1, every knot vector, every basis index with i + k < |t|, every derivative order m and every x; m >= k gives 0; no index is out of bounds, no usize operation overflows, no division by zero occurs, the recursion terminates.",
+        "level_note": "Real-number model of f64. See coverage.uncovered_subclaims for the clauses of the property that are lemmas on the spec and not yet proved.",
+        "design_ref": "DESIGN.md §7 C14",
+    },
 }
